@@ -235,6 +235,20 @@ def kc_judge(cls, view, extra, argv, obs):
 def replay_sessions(ctx, fnd, bench, cmd, sessions):
     n_inv = 0
     t0 = time.time()
+    # signing / verifying through the command costs ~0.8 s per invocation: the thorough tier's msg export
+    # (3,000+ invocations) is replayed on a deterministic spread of its sessions, every class still present
+    budget = 900
+    total = sum(len(x["log"]) for x in sessions)
+    if cmd == "msg" and total > budget:
+        step = -(-total // budget)
+        seen, kept = set(), []
+        for j, x in enumerate(sessions):
+            cls = tuple(_class(cmd, e["inv"], e["res"]) for e in x["log"])
+            if j % step == 0 or cls not in seen:
+                kept.append(x)
+            seen.add(cls)
+        ctx.log("msg: %d of %d exported sessions replayed (every %d-th and every new class sequence)" % (len(kept), len(sessions), step))
+        sessions = kept
     for ses in sessions:
         scripts = {}
         sid = "%s-%s" % (cmd, ses["id"])
